@@ -59,11 +59,7 @@ Theorem C12_accessors : forall sh b c s,
   (s_pc (gets sh s) = CRet ->
    close_step cfg_current sh s =
    XOk (set_pc sh s CFinished) [] [OClosed s (negb (isnil (errs_of sh s)))] [] []).
-Proof.
-  intros sh b c s. split; [reflexivity|]. split.
-  - intros V W. simpl. rewrite V, W. reflexivity.
-  - intros P. unfold close_step. rewrite P. reflexivity.
-Qed.
+Proof. exact accessors. Qed.
 Print Assumptions C12_accessors.
 
 (** The done signal fires once: it never goes back, and it is on after every completed
@@ -73,9 +69,7 @@ Theorem C12_done_once : forall progs,
                    c_done (getc (sh (run cfg_current (s1 ++ s2) (init progs))) c) = true) /\
   (forall sched th c es, let st := run cfg_current sched (init progs) in
      In th (ths st) -> In (c, es) (t_acks th) -> c_done (getc (sh st) c) = true).
-Proof.
-  intros progs. split. exact (done_monotone cfg_current progs). exact (acked_done cfg_current progs).
-Qed.
+Proof. exact done_once. Qed.
 Print Assumptions C12_done_once.
 
 (** Creating and closing children of scopes that are done (or not), racing with anything the
